@@ -287,3 +287,43 @@ def nodes_where(cfg, pattern, truth=True):
 def gfacts(cfg, node):
     """[(normalised text of atom, truth)] for the facts dominating node."""
     return [(norm(a), t) for a, t in guard_atoms(cfg, node)]
+
+
+def plain_update_only_without_filter(cfg, flt='query_filter'):
+    """In a DB function offering a conditional update (update_on_match under
+    `if query_filter`), the unconditional object update `<row>.update(...)`
+    is reachable only when NO filter was given.  A test that is narrower
+    than "a filter was given" sends some filtered calls down the
+    unconditional path: the compare-and-swap silently becomes a blind
+    write."""
+    plain = [n for n, c in cfg.calls(
+        lambda c: call_name(c) == 'update' and
+        isinstance(c.func, ast.Attribute) and
+        isinstance(c.func.value, ast.Name))]
+    return bool(plain) and all(guarded(cfg, n, flt, False) for n in plain)
+
+
+def inline_locals(fnode, expr):
+    """Text of expr with local names that are assigned exactly once in the
+    function, from a dotted attribute path, replaced by that path (column
+    aliases like `captured_at_col = models.ScheduledJob.captured_at`)."""
+    import copy as _copy
+    single = {}
+    counts = {}
+    for n in own_nodes(fnode):
+        if isinstance(n, ast.Assign):
+            for t in n.targets:
+                if isinstance(t, ast.Name):
+                    counts[t.id] = counts.get(t.id, 0) + 1
+                    if isinstance(n.value, ast.Attribute) and \
+                            dotted(n.value):
+                        single[t.id] = n.value
+    e = _copy.deepcopy(expr)
+
+    class T(ast.NodeTransformer):
+        def visit_Name(self, node):
+            if node.id in single and counts.get(node.id) == 1:
+                return _copy.deepcopy(single[node.id])
+            return node
+    e = T().visit(e)
+    return e
